@@ -1,0 +1,77 @@
+//go:build verif && vectors
+// +build verif,vectors
+
+// Verification hooks for the vector index cache (build tags "verif vectors").
+
+package zap
+
+import (
+	"sort"
+	"sync/atomic"
+	"time"
+
+	segment "github.com/blevesearch/scorch_segment_api/v2"
+)
+
+func verifBase(sg segment.Segment) *SegmentBase {
+	switch x := sg.(type) {
+	case *Segment:
+		return &x.SegmentBase
+	case *SegmentBase:
+		return x
+	}
+	return nil
+}
+
+// VerifSetMonitorFreq changes the period of the cache expiry monitor (started
+// when the first index of a segment is cached); returns the previous value.
+func VerifSetMonitorFreq(d time.Duration) time.Duration {
+	old := monitorFreq
+	monitorFreq = d
+	return old
+}
+
+// VerifVecCacheTick runs one expiry pass of the segment's vector index cache
+// synchronously and returns the field ids (+1) of the entries it evicted.
+func VerifVecCacheTick(sg segment.Segment) []uint16 {
+	sb := verifBase(sg)
+	vc := sb.vecIndexCache
+	vc.m.RLock()
+	before := make(map[uint16]bool, len(vc.cache))
+	for k := range vc.cache {
+		before[k] = true
+	}
+	vc.m.RUnlock()
+	vc.cleanup()
+	vc.m.RLock()
+	var evicted []uint16
+	for k := range before {
+		if _, ok := vc.cache[k]; !ok {
+			evicted = append(evicted, k)
+		}
+	}
+	vc.m.RUnlock()
+	sort.Slice(evicted, func(i, j int) bool { return evicted[i] < evicted[j] })
+	return evicted
+}
+
+// VerifVecCacheRefs returns refs per cached field id (+1).
+func VerifVecCacheRefs(sg segment.Segment) map[uint16]int64 {
+	sb := verifBase(sg)
+	vc := sb.vecIndexCache
+	vc.m.RLock()
+	defer vc.m.RUnlock()
+	out := make(map[uint16]int64, len(vc.cache))
+	for k, e := range vc.cache {
+		out[k] = atomic.LoadInt64(&e.refs)
+	}
+	return out
+}
+
+// VerifFieldIDPlus1 maps a field name to its id+1 (0 if unknown).
+func VerifFieldIDPlus1(sg segment.Segment, field string) uint16 {
+	return verifBase(sg).fieldsMap[field]
+}
+
+// VerifGetVectorCode exposes getVectorCode.
+func VerifGetVectorCode(docNum uint32, score float32) uint64 { return getVectorCode(docNum, score) }
